@@ -19,8 +19,10 @@ class LoopSpec:
     variant(ctx)  -> int term that decreases (while loops; termination is claimed only if given)
     shapes        -> {name: callable() -> fresh value} for havocked variables whose shape cannot be inferred
     """
-    def __init__(self, defs=None, inv=None, modifies=(), variant=None, shapes=None, unroll=False, cases=None):
+    def __init__(self, defs=None, inv=None, modifies=(), variant=None, shapes=None, unroll=False, cases=None,
+                 lemmas=None):
         self.defs, self.inv, self.modifies, self.variant = defs, inv, tuple(modifies), variant
+        self.lemmas = lemmas            # (ctx) -> [(name, fact)]: proved, then assumed, at the start of the body
         self.cases = cases or {}        # proof hints: name -> (ctx, k) -> (i -> (index terms, rest condition))
         self.shapes = shapes or {}
         self.unroll = unroll
@@ -322,6 +324,10 @@ def cut_while(ex, s, st, spec, tag, head, check, enforce_frame, entry):
     hb, hx = h.copy(), h.copy()
     hb.assume(c)
     hx.assume(NOT(c))
+    if spec.lemmas is not None:
+        for nm, fact in spec.lemmas(Ctx(ex, hb, entry)):
+            ex.oblige(hb, fact, '%s/lemma.%s' % (tag, nm), s)
+            hb.assume(fact)
     if feasible(hb.pc):
         v0 = spec.variant(Ctx(ex, hb, entry)) if spec.variant else None
         for o in ex.block(s.body, hb):
